@@ -81,6 +81,7 @@ func ruleLoop(p *Program, r *Result, parts string) {
 	isReader := map[*ssa.Function]bool{}
 	for _, f := range ro.Readers {
 		isReader[f] = true
+		isReader[p.orig(f)] = true
 	}
 	hn := p.lookupType("", "Handler")
 	for _, L := range ro.Loops {
@@ -424,8 +425,11 @@ func ruleLoop(p *Program, r *Result, parts string) {
 }
 
 func containsFn(fs []*ssa.Function, f *ssa.Function) bool {
+	if f == nil {
+		return false
+	}
 	for _, x := range fs {
-		if x == f {
+		if x == f || (gProg != nil && gProg.orig(x) == gProg.orig(f)) {
 			return true
 		}
 	}
@@ -508,6 +512,21 @@ func derivesFromCallResult(v ssa.Value, c *ssa.Call, idx int, depth int) bool {
 				for _, s := range allocStores(a) {
 					if derivesFromCallResult(s.Val, c, idx, depth-1) {
 						return true
+					}
+					// the local is a copy of another local struct (a value returned by a folded helper):
+					// the field read here was stored into that one
+					if fa, ok := x.X.(*ssa.FieldAddr); ok && fa.X == ssa.Value(a) {
+						if u, ok := s.Val.(*ssa.UnOp); ok && u.Op == token.MUL {
+							if a2, ok := u.X.(*ssa.Alloc); ok && a2 != a {
+								for _, rf := range refsOf(a2) {
+									if fa2, ok := rf.(*ssa.FieldAddr); ok && fa2.Field == fa.Field {
+										if storedFieldDerives(fa2, c, idx, depth-1) {
+											return true
+										}
+									}
+								}
+							}
+						}
 					}
 				}
 			}
